@@ -119,9 +119,8 @@ Print Assumptions C14_ng_writer_accepts.
    boundary and io.ErrUnexpectedEOF inside the block.  The cut after the last block is
    C14_ng_roundtrip_file_partial.  The reader runs with any fuel at least that of the whole file (the model's
    fuel is a proof device; C15_ng_terminates shows the fuel of the cut input is never exhausted
-   either, but the equality of the two runs is not proved).  Missing: cuts inside the section
-   header block (covered by the sample below and the correspondence run), ISB/DSB blocks,
-   WantMixedLinkType = false. *)
+   either, but the equality of the two runs is not proved).  Cuts inside the section header block: C14_ng_prefix_header_partial.  Missing: ISB/DSB
+   blocks, WantMixedLinkType = false, and the identity of the run with the cut input's own fuel. *)
 Theorem C14_ng_prefix_file_partial : forall ro sec i0 ops pre nxt post k,
   ro_mixed ro = true -> sec_ok sec -> ops_ok [] (WAddIf i0 :: ops) -> zlen ops < 4294967290 ->
   WAddIf i0 :: ops = pre ++ nxt :: post -> (k < length (enc_op nxt))%nat ->
@@ -132,6 +131,17 @@ Theorem C14_ng_prefix_file_partial : forall ro sec i0 ops pre nxt post k,
   new_class r = 0 /\ packets r = exp_pkts [] pre /\ end_class r = (if (k =? 0)%nat then 1 else 2).
 Proof. exact prefix_file. Qed.
 Print Assumptions C14_ng_prefix_file_partial.
+
+(* cuts inside the section header block: NewNgReader fails with io.EOF for the empty file and
+   io.ErrUnexpectedEOF otherwise, no packet *)
+Theorem C14_ng_prefix_header_partial : forall ro sec i0 ops k,
+  ro_mixed ro = true -> sec_ok sec -> ops_ok [] (WAddIf i0 :: ops) -> zlen ops < 4294967290 ->
+  (k < length (enc_shb sec))%nat ->
+  forall F, (6 < F)%nat ->
+  let r := fst (run_d (session ro F) (firstn k (write_file sec i0 ops))) in
+  new_class r = (if (k =? 0)%nat then 1 else 2) /\ packets r = [] /\ end_class r = (if (k =? 0)%nat then 1 else 2).
+Proof. exact prefix_file_shb. Qed.
+Print Assumptions C14_ng_prefix_header_partial.
 
 (* the two block lemmas behind it: a block cut short ends the read with io.ErrUnexpectedEOF *)
 Theorem C14_ng_cut_packet_block : forall ro F g s ifid ts caplen len data o k,
